@@ -146,6 +146,9 @@ def mkresp(r):
     st, meta, body = r
     if body is not None:
         body = body[1] if body[0] == "s" else (b"Z" * body[1] if body[0] == "z" else bytes.fromhex(body[1]))
+        if r[2][0] == "b" and len(body) % 3:
+            # handlers may hand over any bytes-like object (bytearray, memoryview, BytesIO.getbuffer()): same bytes on the wire
+            body = bytearray(body) if len(body) % 3 == 1 else memoryview(body)
     return GeminiResponse(status=st, meta=meta, body=body)
 
 
